@@ -27,7 +27,7 @@ CLAIMED['C01'] = {
              'decoding the emitted signature yields the index-resolved tree whatever the sharing. Tied to the code on every run by streams: '
              'engine value per row and pure-Python value vs proved enclosures (exact dyadic exchange, membership decided in Coq), '
              'get_signature bytes and IdManager tables vs the models, 1-3 formulas side by side, shared sub-formulas, a history of a '
-             'failing then a valid evaluation, histories of several BIOGEME objects / separate evaluations / a function created once that share one sub-formula object (stream history_models: simulate, get_value_c with and without a dictionary, create_function, calculate_likelihood, two value sets), constants with long mantissas and the constants -1 / -2 side by side, LogLogit through the pure-Python evaluator with unavailable alternatives. LogLogit.get_value is tied by a statement-by-statement template (fail-closed) to its Gallina transcription, proved equal to the reference semantics of the logit node wherever the method returns (T01e_python_evaluator_loglogit).'),
+             'failing then a valid evaluation, histories of several BIOGEME objects / separate evaluations / a function created once that share one sub-formula object (stream history_models: simulate, get_value_c with and without a dictionary, create_function, calculate_likelihood, two value sets), constants with long mantissas and the constants -1 / -2 side by side, LogLogit through the pure-Python evaluator with unavailable alternatives. LogLogit.get_value is tied by a statement-by-statement template (fail-closed) to its Gallina transcription, proved equal to the reference semantics of the logit node wherever the method returns (T01e_python_evaluator_loglogit). Histories also store identifiers once (prepare) and evaluate with prepare_ids=False while other formulas sharing the object (directly under the root or two levels below it) are prepared, built into models or evaluated; ConditionalSum conditions include truth values that are not 0/1.'),
     'note': KERNEL + 'the compiled engine is external: its operator semantics are MODELLED (Model/EvalX.v) and only sampled; IEEE rounding is '
             'covered by the 2^-30 relative tolerance; normal CDF: the enclosure is proved (Proofs/PhiP.v) without the Gaussian integral, so 0 <= Phi <= 1 is not proved and enclosures are not clipped to [0,1]; that the normal CDF of the engine and of scipy is this Phi is sampled (stream phi_grid); real-number axioms of the standard '
             'library, classic, functional extensionality, primitive 63-bit integers (Interval/Bignums).',
@@ -125,7 +125,7 @@ CLAIMED['C09'] = {
              'draw shared by all rows of the block; per-individual values and the total are invariant under any reordering of the table and follow an injective '
              'renaming of individuals. Tied by streams panel_map (refusal, map, row permutation, sample size compared exactly inside Coq, including remove '
              'histories) and panel_ll (simulate, calculate_likelihood, get_value_c per-individual values vs the model over Q at relative 1e-12 with a '
-             'deterministic tagged draw generator, permuted individuals and rows, 1-4 threads). Also for histories of one Database object (state machine Model/Panel.v, T09g-T09i, axiom-free): a declaration on any column (including a second one on another column) is accepted exactly on contiguous columns and a refusal leaves the state unchanged; after any sequence of declarations, direct edits of database.data, removals and earlier evaluations, an evaluation uses the map of the current table on the current column with one series of draws per individual of that table. Stream panel_ll replays such histories step by step against the Coq state machine, with every one-expression entry point and BIOGEME simulate / likelihood as first evaluation after an edit or a declaration; the scaled value, gradient, Hessian and BHHH are checked to equal unscaled / number of individuals.'),
+             'deterministic tagged draw generator, permuted individuals and rows, 1-4 threads). Also for histories of one Database object (state machine Model/Panel.v, T09g-T09i, axiom-free): a declaration on any column (including a second one on another column) is accepted exactly on contiguous columns and a refusal leaves the state unchanged; after any sequence of declarations, direct edits of database.data, removals and earlier evaluations, an evaluation uses the map of the current table on the current column with one series of draws per individual of that table. Stream panel_ll replays such histories step by step against the Coq state machine, with every one-expression entry point and BIOGEME simulate / likelihood as first evaluation after an edit or a declaration; the scaled value, gradient, Hessian and BHHH are checked to equal unscaled / number of individuals. A BIOGEME object built before its database table changed (Database.remove, direct edits): proved for the model (T09j) and checked on generated histories that every likelihood, derivative and simulation is the value on ONE consistent table, the table copied at construction or the current one, never rows of one with the ranges of the other; simulate follows the current table. Not claimed: that the object follows the current table for likelihoods before the next simulate. Open known finding: the scaled likelihood divides the construction-table likelihood by the current number of individuals.'),
     'note': KERNEL + 'pandas primitives as modelled (sort_values = some sorted permutation, unique = first appearance); the C++ engine loop and draw indexing are '
             'sampled, not verified; the rule "variables inside PanelLikelihoodTrajectory" is C12\'s.',
 }
@@ -173,7 +173,7 @@ CLAIMED['C04'] = {
              'under blocks n T (bit-for-bit); calculate_likelihood(_and_derivatives), scaled and not, must lie within the summation bound of the exact rational '
              'sum of weight x simulate, for thread counts {1,2,3,n-1,n,n+3,0}, row permutations, 2-4-way splits, a thread-count change through the setter and '
              'before/after a bootstrap run. PARTIAL on schedules: real thread interleavings and data races in the C++ are outside the model; the thorough stress '
-             'run (run-to-run identical doubles) is a test, not a proof. Also proved: the parts the library itself makes hold every row exactly once, hence the log likelihood and every gradient / Hessian / BHHH component summed over them is the data-set total: extract_rows on interleaved ranges (any step m > 0), reversed ranges and valid position lists; array_split-style Database.split(k) for every remainder of n by k and each of its estimation / validation pairs; mdcev_row_split; a constant weight multiplies the unweighted sum (T04g, T04d_constant_weight). Tied by stream library_splits (range rows and slice sizes compared inside Coq) and by partition and sum oracles on real Database.extract_rows / split / mdcev_row_split calls (k not dividing n, groups=, panel data, bare Numeric / constant-expression / constant x column weights, formula names loglike / weights). PARTIAL: split(groups=...) and the panel branch of split are checked by the oracles only; the shuffle is an arbitrary permutation.'),
+             'run (run-to-run identical doubles) is a test, not a proof. Also proved: the parts the library itself makes hold every row exactly once, hence the log likelihood and every gradient / Hessian / BHHH component summed over them is the data-set total: extract_rows on interleaved ranges (any step m > 0), reversed ranges and valid position lists; array_split-style Database.split(k) for every remainder of n by k and each of its estimation / validation pairs; mdcev_row_split; a constant weight multiplies the unweighted sum (T04g, T04d_constant_weight). Tied by stream library_splits (range rows and slice sizes compared inside Coq) and by partition and sum oracles on real Database.extract_rows / split / mdcev_row_split calls (k not dividing n, groups=, panel data, bare Numeric / constant-expression / constant x column weights, formula names loglike / weights). PARTIAL: split(groups=...) and the panel branch of split are checked by the oracles only; the shuffle is an arbitrary permutation. Histories on one object: results returned earlier stay equal to the per-row sums at their own point after later evaluations; the likelihood the object reports at its current values (calculate_init_likelihood, init log likelihood of estimate) equals the weighted sum of simulate at get_beta_values() after change_init_values / set_random_init_values / estimate, exact zeros included (changed_value generated from source, T04h). Open known findings: a Parameters object shared by two BIOGEME objects; raising number_of_threads after a derivatives call (both need the engine to be fed again, not a small repair).'),
     'note': KERNEL + 'py2v, the C04 ast extractors and the engine-call scan; Model/LogLike.v as a reading of cythonbiogeme biogeme.cc / evaluateExpressions.cc (external, '
             'not verified); equalities over reals hold on doubles up to the stated summation bound.',
 }
@@ -186,7 +186,7 @@ CLAIMED['C05'] = {
              'category probabilities telescope to 1 and lie in [0,1] (logistic cdf proved monotone with range [0,1]; normal cdf by hypothesis). The Gallina builders '
              '(incl. a model of Python double arithmetic on numeric parameters and of Nests.__init__/check_partition/check_validity/from_tuple) are compared node for '
              'node with the trees /repo builds in both nest syntaxes (stream build); engine values of all alternatives are checked against the property directly and '
-             'against proved interval enclosures (stream prob_values); stream build also demands that a nest repeating an alternative (first / middle / last position, 7 nested builders, both syntaxes) is refused with BiogemeError. PARTIAL: alpha = 0 entries and 0**x are outside the reference semantics (sampled only). Also for the MEV model with endogenous-sampling correction (logmev / mev_endogenous_sampling: distribution proved for arbitrary ln G_i and corrections, equal corrections = MEV; T05d_mev_es_*, T05h_mev_es_is_exp_of_log); stream build covers these entry points including repeated calls with the same dictionaries; stream prob_values obtains each distribution by one call per alternative with the same caller dictionaries (which must come back unmodified), also through the pure-Python evaluator get_value() on variable-free trees with numeric availabilities, and demands agreement with the engine. The Python path of cnl runs with positive alphas only: with alpha = 0 and an Expression nest parameter the Python evaluator computes 0.0 ** negative = inf and 0 * inf = nan (a power of 0, outside the regular domain; the engine returns the right value).'),
+             'against proved interval enclosures (stream prob_values); stream build also demands that a nest repeating an alternative (first / middle / last position, 7 nested builders, both syntaxes) is refused with BiogemeError. PARTIAL: alpha = 0 entries and 0**x are outside the reference semantics (sampled only). Also for the MEV model with endogenous-sampling correction (logmev / mev_endogenous_sampling: distribution proved for arbitrary ln G_i and corrections, equal corrections = MEV; T05d_mev_es_*, T05h_mev_es_is_exp_of_log); stream build covers these entry points including repeated calls with the same dictionaries; stream prob_values obtains each distribution by one call per alternative with the same caller dictionaries (which must come back unmodified), also through the pure-Python evaluator get_value() on variable-free trees with numeric availabilities, and demands agreement with the engine. The Python path of cnl runs with positive alphas only: with alpha = 0 and an Expression nest parameter the Python evaluator computes 0.0 ** negative = inf and 0 * inf = nan (a power of 0, outside the regular domain; the engine returns the right value). Streams also run HISTORIES: the same nests object and the same utility / availability dictionaries re-used across several model evaluations, replaced or updated in place in between; each evaluation must equal the one on freshly built objects, be a distribution, and be invariant under a uniform shift; stream build checks the tree after such a prior use.'),
     'note': KERNEL + 'evalX as reference semantics; the expression bridge; the hand-written builders up to the sampled correspondence; cythonbiogeme numerics only sampled; '
             'Phi is a Section variable with monotonicity/range hypotheses.',
 }
@@ -197,7 +197,7 @@ CLAIMED['C06'] = {
              'stream build demands identical Python trees for both syntaxes on every case); generating-function consistency: for the trees of '
              'get_mev_generating_for_nested and get_mev_for_nested, d/dV_i G(e^V) = e^{V_i} e^{ln G_i} (Coquelicot is_derive) for every available alternative, '
              'including alternatives outside every nest (that each nest lists each alternative once follows from the builder returning Ok: check_partition refuses a repetition, T06v_repeated_alternative_refused, demanded of the implementation by stream build); check_union can never fail after Nests.__init__. Stream pairs compares engine values of both sides of each '
-             'reduction (1e-9) and central differences of G with exp(V_i + ln G_i) (1e-5); a regression of the repaired alone term is reported with a concrete witness. Legacy tuples equal nest objects bearing any names, including equal names arising through re-use of an unnamed nest object from an earlier specification (model of the naming of Nests.__init__, checked against Python in stream build; T06d_legacy_syntax_named_*). Stream pairs also compares named / reused nest objects with the tuple syntax numerically for nested / nested+mu / cnl / cnl+mu, and every reduction also with availabilities given as plain Python numbers containing a 0.'),
+             'reduction (1e-9) and central differences of G with exp(V_i + ln G_i) (1e-5); a regression of the repaired alone term is reported with a concrete witness. Legacy tuples equal nest objects bearing any names, including equal names arising through re-use of an unnamed nest object from an earlier specification (model of the naming of Nests.__init__, checked against Python in stream build; T06d_legacy_syntax_named_*). Stream pairs also compares named / reused nest objects with the tuple syntax numerically for nested / nested+mu / cnl / cnl+mu, and every reduction also with availabilities given as plain Python numbers containing a 0. Every reduction / legacy clause is also checked after histories of calls on the same nest objects and dictionaries (updated in place), against the tuple syntax on fresh objects, for P, log P, ln G_i and G.'),
     'note': KERNEL + 'same trusted base as C05 plus Coquelicot; reductions stated under exactness of Python-side float constants (trivial for Beta/Numeric parameters, '
             'proved for 1.0).',
 }
@@ -225,8 +225,8 @@ CLAIMED['C16'] = {
              'hand-substituted formula structurally (hence any function of it: signature, value), every operator of prepare_operators maps valid to valid for any step. '
              'Tied by streams on random structures (shared/nested catalogs, helpers, from_dict): catalog tree as built, controllers, count, ids, iteration, every sampled '
              'configuration (tree, selected names, elementary expressions, get_children/get_signature views, get_value), every operator with steps {1,2,size,size+1,...} '
-             'and its inverse. PARTIAL: values compared through Python get_value and identical canonical signatures, not through the C++ engine. '
-             'Added: a formula is accepted iff controllers of one name are one Controller object wherever they sit (merge_controllers regenerated from source; T16j), so accepted formulas have pairwise distinct controller names and the id determines the configuration; for every legal controller state, hence after any history and whatever the creation order of catalogs, a formula reads as the hand-written formula of the configuration it reports, which lies in its own product (T16i). Streams history (objects created between moves through every entry point, every object read after every step, own count and ids of embedded sub-formulas) and malformed (two controllers of one name refused at every position and through the helpers, shared object accepted).'),
+             'and its inverse. PARTIAL: engine values only on formulas built from total operators (the engine can crash on ill-formed ones); elsewhere values are compared through Python get_value and identical canonical signatures. '
+             'Added: a formula is accepted iff controllers of one name are one Controller object wherever they sit (merge_controllers regenerated from source; T16j), so accepted formulas have pairwise distinct controller names and the id determines the configuration; for every legal controller state, hence after any history and whatever the creation order of catalogs, a formula reads as the hand-written formula of the configuration it reports, which lies in its own product (T16i). Streams history (objects created between moves through every entry point, every object read after every step, own count and ids of embedded sub-formulas) and malformed (two controllers of one name refused at every position and through the helpers, shared object accepted). The configure stream compares, configured vs hand-written, every delegated tree operation (get_children, get_signature with draws prepared, embed_expression for all classes, requires_draws, check_draws / rv / panel_trajectory, panel count) including alternatives whose top node is MonteCarlo / PanelLikelihoodTrajectory, and the value through the C++ engine on engine-safe formulas; the malformed stream also requires that a catalog whose names differ in order or content from its shared controller is refused.'),
     'note': KERNEL + 'tie-A extractor lib/props/c16_extract.py (py2v + fail-closed AST templates); CPython semantics of str.split/sorted/dict/set as modelled; random.choices as an arbitrary oracle.',
 }
 
@@ -241,7 +241,7 @@ CLAIMED['C07'] = {
              'vanishes exactly at first-order points. PARTIAL: final >= init, bounds respected, stationarity and agreement depend on the external optimisers: their '
              'contracts appear as explicit hypotheses on an oracle and are only sampled (~1.1k estimations quick / ~33k thorough over all 9 algorithm names, 5 bound '
              'configurations, restart files, quick_estimate; compared with recomputation and an independent numpy likelihood). One open known finding (false '
-             'convergence of the external simple_bounds with a pinned parameter). Also proved: with optimize() as read from the source (it assigns no attribute), the results of estimate(run_bootstrap=True), including the convergence status, are those of the estimation on the full sample whatever the re-estimations return, and the bootstrap rows are the re-estimations started at the estimates (T07i); with the per-call allocation of the derivative arrays read from the source, the matrices held by a results object survive any later evaluations (T07j). Also sampled: estimations with bootstrap (with and without iteration limits) and histories of further calls on the same BIOGEME object before and after the estimation, all under recording spies (reported status and estimates compared with what the routine of the main estimation returned); a second concave family whose likelihood is undefined (NaN) on an unguarded region: there only automatic and simple_bounds* satisfy the property, LS/TR and scipy are open known findings of the external optimisers.'),
+             'convergence of the external simple_bounds with a pinned parameter). Also proved: with optimize() as read from the source (it assigns no attribute), the results of estimate(run_bootstrap=True), including the convergence status, are those of the estimation on the full sample whatever the re-estimations return, and the bootstrap rows are the re-estimations started at the estimates (T07i); with the per-call allocation of the derivative arrays read from the source, the matrices held by a results object survive any later evaluations (T07j). Also sampled: estimations with bootstrap (with and without iteration limits) and histories of further calls on the same BIOGEME object before and after the estimation, all under recording spies (reported status and estimates compared with what the routine of the main estimation returned); a second concave family whose likelihood is undefined (NaN) on an unguarded region: there only automatic and simple_bounds* satisfy the property, LS/TR and scipy are open known findings of the external optimisers. Also proved: when estimate(run_bootstrap=True) is left by a fault inside any re-estimation, the calculation engine holds the estimation data again (restore in the finally clause, read from the source; T07k). Also sampled: the same object estimated again after a bootstrap run interrupted by an injected fault (4 exception kinds, 2 injection points, any re-estimation).'),
     'note': KERNEL + 'py2v plus the C07 extractors, validated each run against recorded real calls; biogeme_optimization, scipy.optimize.minimize, FunctionToMinimize, '
             'cythonbiogeme are not verified; floats read as reals.',
 }
@@ -256,7 +256,7 @@ CLAIMED['C12'] = {
              'breaks T12_0; an unknown shape aborts. Tie B: method-level correspondence and the property oracle on real entry points (BIOGEME, get_value_c, '
              'get_value_and_derivatives, Database, models.*), per operator kind x slot x fault kind, plus the missing-data rule on one-row tables. Three open known '
              'findings: dict formulas on panel data (the repository\'s own tests require acceptance), the engine\'s linear utility swallowing a missing value, the '
-             'eager LogLogit audit. Tie A also extracts the rules of the entry points: accumulation of the per-formula audits in BIOGEME._audit, the scope of the draw-type check in IdManager.prepare, Database._audit reading the current table only, the pairwise nest comparison. Theorems added: a fault in any position of a multi-formula specification is reported; one draw name with two distributions is refused wherever the two declarations sit (one formula or across formulas) and a reported clash is genuine; nests with a repeated alternative are refused. The fault oracle additionally covers dictionary specifications with the fault in each position, draw-type clashes at every ordered pair of formulas, nest faults at every pair of positions, database histories (a fault entering the table after earlier operations) and evaluation histories (repeated evaluations of the same objects with stored or fresh identifiers under table or catalog changes in both orders, each call judged separately). Not judged: a catalog at the very top of a formula under stored identifiers; NaN or strings entering the table between two get_value_c calls.'),
+             'eager LogLogit audit. Tie A also extracts the rules of the entry points: accumulation of the per-formula audits in BIOGEME._audit, the scope of the draw-type check in IdManager.prepare, Database._audit reading the current table only, the pairwise nest comparison. Theorems added: a fault in any position of a multi-formula specification is reported; one draw name with two distributions is refused wherever the two declarations sit (one formula or across formulas) and a reported clash is genuine; nests with a repeated alternative are refused. The fault oracle additionally covers dictionary specifications with the fault in each position, draw-type clashes at every ordered pair of formulas, nest faults at every pair of positions, database histories (a fault entering the table after earlier operations) and evaluation histories (repeated evaluations of the same objects with stored or fresh identifiers under table or catalog changes in both orders, each call judged separately). Not judged: a catalog at the very top of a formula under stored identifiers; NaN or strings entering the table between two get_value_c calls. Contexts include chained comparisons (a comparison with a comparison operand); the history oracle includes configuration histories (placement and audit faults in one configuration of a catalog below an operator, examined before or after a valid configuration of the same object, on panel data as well).'),
     'note': KERNEL + 'the ast extractor and its class <-> head mapping; the expression bridge; evalX as the lazy reading semantics (engine modelled); pandas dtype '
             'classes as abstracted in Model/Audit.v; LogLogit choice rule modelled for constant / column choices only.',
 }
@@ -272,7 +272,7 @@ CLAIMED['C15'] = {
              'write discipline (temp file + os.replace), line format, parser, the prologues of estimate / quick_estimate and the bootstrap suspension/restoration are '
              'regenerated from biogeme.py by a fail-closed AST extractor on every run. Refuted variants (in-place write, no marker update, split(=), quick_estimate '
              'without prologue, bootstrap not suspended / data not restored) document what each repaired line carries. The session semantics is compared with real '
-             'BIOGEME objects after every evaluation, on crafted files, and under os._exit injected at every byte of every save; thorough adds real SIGKILLs (not a proof). Histories also include bootstrap loops left by an exception with the object used again (BootstrapAbort; T15f_abort_data_not_restored_refuted documents what the finally clause carries), and evaluations through every public entry point (calculate_likelihood_and_derivatives with scaled / hessian / bhhh, its deprecated alias, likelihood_finite_difference_hessian, check_derivatives): the marker always compares the totals returned by the engine. Strings are byte sequences in the model and names may be non-ASCII; half of the streamed sessions run in a non-UTF-8 (C) locale; the extractor requires explicit utf-8 on both open() calls and f, g, x unmodified between the engine call and the save branch.'),
+             'BIOGEME objects after every evaluation, on crafted files, and under os._exit injected at every byte of every save; thorough adds real SIGKILLs (not a proof). Histories also include bootstrap loops left by an exception with the object used again (BootstrapAbort; T15f_abort_data_not_restored_refuted documents what the finally clause carries), and evaluations through every public entry point (calculate_likelihood_and_derivatives with scaled / hessian / bhhh, its deprecated alias, likelihood_finite_difference_hessian, check_derivatives): the marker always compares the totals returned by the engine. Strings are byte sequences in the model and names may be non-ASCII; half of the streamed sessions run in a non-UTF-8 (C) locale; the extractor requires explicit utf-8 on both open() calls and f, g, x unmodified between the engine call and the save branch. Also from any earlier state of the same object (stale marker of a previous run, file replaced or removed by the user, model renamed) once an estimation starts (T15a_file_is_best_after_any_start); the iter stream includes sessions where a check point is put back, the file is removed or the model is renamed between runs on one object (oracle only: best point in the file of the current name, files of other names untouched, file name follows the rename).'),
     'note': KERNEL + 'Section hypotheses: os.replace atomic (POSIX rename), float(str(v)) == v, str(v) has no white space / = / line break (both checked on every '
             'streamed value); a crash is a process death, not a power failure (no fsync claim); the specialised extractor in lib/props/C15.py + py2v.',
 }
